@@ -81,6 +81,7 @@ type Ctx struct {
 	Index    int
 	notePath string
 	noteFile *os.File
+	beat     func()
 	Scratch  string // per-worker scratch directory (removed by the supervisor)
 }
 
@@ -99,6 +100,13 @@ func (c *Ctx) Note(b []byte) {
 	}
 	_, _ = c.noteFile.WriteAt(b, 0)
 	_ = c.noteFile.Truncate(int64(len(b)))
+}
+
+// Beat tells the supervisor's stall watchdog that a long case is still making progress.
+func (c *Ctx) Beat() {
+	if c.beat != nil {
+		c.beat()
+	}
 }
 
 // Done releases per-case resources of the context.
